@@ -144,12 +144,12 @@ func (vc *VC) appendStructsImpl(st *State, c *ssa.CallCommon, args []Val, rt typ
 			vc.declare(mv, srt)
 			idx := p.index("o")
 			vc.axiom(fmt.Sprintf("(forall ((o Int)) (! (= (select %s o) (ite (and %s (<= 0 %s) (< %s %s)) (select %s %s) (select %s o))) :pattern ((select %s o))))",
-				mv, p.member("o"), idx, idx, s.Sl[2], h, p.at(s.Sl[0], app("+", s.Sl[1], idx)), h, mv))
+				mv, p.member("o"), idx, idx, s.Sl[2], h, p.at(s.Sl[0], vc.ix(s.Sl[1], idx)), h, mv))
 			inPlace := Term(h)
 			moved := Term(mv)
 			for j := 0; j < small; j++ {
-				x := sel(h, p.at(src.Sl[0], app("+", src.Sl[1], num(int64(j)))))
-				inPlace = store(inPlace, p.at(s.Sl[0], app("+", app("+", s.Sl[1], s.Sl[2]), num(int64(j)))), x)
+				x := sel(h, p.at(src.Sl[0], vc.ix(src.Sl[1], num(int64(j)))))
+				inPlace = store(inPlace, p.at(s.Sl[0], vc.ix(s.Sl[1], app("+", s.Sl[2], num(int64(j))))), x)
 				moved = store(moved, p.at(freshArr, app("+", s.Sl[2], num(int64(j)))), x)
 			}
 			vc.heapSet(st, name, srt, ite(fits, inPlace, moved))
